@@ -22,17 +22,21 @@ def choose_inputs(prog: gen.Program, sel_seed: int, mode: str):
     return idx
 
 
-def set_pregrads(leaves, pre_seed: int, mode: str):
-    """mode: none | all | some.  Same content on twin programs because it only depends on the seed."""
+def set_pregrads(leaves, pre_seed: int, mode: str, scale: float = 1.0):
+    """mode: none | all | some | zeros (every leaf requiring grad gets an exactly zero .grad, as after
+    zero_grad(set_to_none=False)).  ``scale`` multiplies the content (uniform(-3, 3) * scale): pre-existing gradients
+    of the magnitude of a tiny / huge update, so that the increase stays observable in the dtype.  Same content on
+    twin programs because it only depends on the arguments."""
     if mode == "none":
         return
     rng = random.Random(pre_seed)
     for t in leaves:
         if not t.requires_grad:
             continue
-        if mode == "all" or rng.random() < 0.5:
-            vals = [rng.uniform(-3, 3) for _ in range(max(1, t.numel()))]
-            t.grad = torch.tensor(vals[: t.numel()], dtype=t.dtype).reshape(t.shape)
+        if mode in ("all", "zeros") or rng.random() < 0.5:
+            vals = [rng.uniform(-3, 3) * scale for _ in range(max(1, t.numel()))]
+            g = torch.tensor(vals[: t.numel()], dtype=t.dtype).reshape(t.shape)
+            t.grad = torch.zeros_like(g) if mode == "zeros" else g
 
 
 def n_rows(outputs) -> int:
@@ -45,6 +49,36 @@ def expected_update(prog2: gen.Program, idx, agg):
     J = gen.ref_jacobian(prog2.outputs, inputs2)
     v = agg(J)
     return J, gen.split_like(v, inputs2)
+
+
+def reach_scales(J: torch.Tensor, inputs) -> list:
+    """Per input (a block of columns of J, in the order of ``inputs``): the magnitude max_i max_j |J[i, j]| over the
+    rows i that reach the input at all (J[i, block] != 0), 0.0 when no row does.  Rounding errors of a backward pass
+    are relative to the magnitude of the cotangents of that pass, i.e. of the row; an input only reached by rows of
+    magnitude s must therefore be updated with an error relative to s (and not to the largest row of J)."""
+    res, start = [], 0
+    rowmag = J.abs().amax(dim=1) if J.numel() else torch.zeros(J.shape[0], dtype=J.dtype)
+    for inp in inputs:
+        n = inp.numel()
+        block = J[:, start:start + n]
+        reach = (block != 0).any(dim=1) if n else torch.zeros(J.shape[0], dtype=torch.bool)
+        res.append(float(rowmag[reach].max()) if bool(reach.any()) else 0.0)
+        start += n
+    return res
+
+
+def increase_ok(after, pre, upd, rtol: float, atol: float, scale: float) -> bool:
+    """Is ``after`` = (pre or nothing) + upd?  The INCREASE after - pre is compared with upd, entrywise, within
+    rtol * |upd| + atol * scale (scale: magnitude of the Jacobian rows reaching this input, see reach_scales) plus the
+    rounding of the addition into the pre-existing value and of the subtraction (4 eps (|pre| + |upd|)): a tiny
+    update must be visible in .grad as far as the dtype can show it, whatever the magnitude of the other updates."""
+    if after is None or after.shape != upd.shape:
+        return False
+    eps = torch.finfo(upd.dtype).eps
+    inc = after if pre is None else after - pre
+    bound = rtol * upd.abs() + atol * scale + 4.0 * eps * (upd.abs() + (0.0 if pre is None else pre.abs()))
+    err = (inc - upd).abs()
+    return bool((err <= bound).all()) and not bool(torch.isnan(err).any())
 
 
 AGG_TOL = {"UPGrad": (2e-5, 2e-6), "DualProj": (2e-5, 2e-6), "MGDA": (1e-6, 1e-7), "Krum": (1e-9, 1e-9)}
